@@ -1,10 +1,11 @@
 (* Extraction of the help/usage models (C12).  ExtrOcamlBasic only; no Extract Constant. *)
 From Coq Require Import Extraction ExtrOcamlBasic.
-From ClapModel Require Import Base.Bytes Base.Machine Parse.Cmd Help.UsageModel Help.HelpModel.
+From ClapModel Require Import Base.Bytes Base.Machine Parse.Cmd Help.UsageModel Help.HelpModel Help.HelpFlatten.
 Extraction Language OCaml.
 Separate Extraction
   Cmd.arg_new Cmd.group_new Cmd.cmd_new Cmd.settings_none
   UsageModel.harg_new UsageModel.hcmd_new UsageModel.cmd_with UsageModel.cmd_with_items UsageModel.hset_none UsageModel.len
   UsageModel.h_build_self UsageModel.level_walk UsageModel.s_help
   HelpModel.render_help HelpModel.render_help_template HelpModel.render_usage HelpModel.help_at HelpModel.row_key HelpModel.row_col
+  HelpFlatten.render_help_flat HelpFlatten.render_usage_flat HelpFlatten.help_at_flat HelpFlatten.usage_text
   BinNums.Z.
